@@ -100,7 +100,10 @@ def ser_values(r, t, n, storage=True):
     """Values to serialize: boundary-biased, in the storage range of C/C++ when storage=True, plus the maximal value."""
     vals = [("max", M.max_value(t))]
     for k in range(n):
-        vals.append(("rand", M.gen_value(r, t, in_range=not (storage and k % 2), maxlen=r.choice([2, 6, 40]))))
+        if storage:
+            vals.append(("rand", M.gen_value(r, t, in_range=not (k % 2), maxlen=r.choice([2, 6, 40]))))
+        else:   # Python: scalars in range, integer array elements over the range of their NumPy dtype
+            vals.append(("rand", M.gen_value(r, t, in_range=True if k % 2 else "py", maxlen=r.choice([2, 6, 40]))))
     return vals
 
 
